@@ -47,15 +47,20 @@ Record sstate := mkS {
   s_log : list levent;               (* trail events, newest first *)
   s_order : option (list task);      (* completion order of the encoder's futures still to be consumed;
                                         None = first-in first-out (the synchronous runtime) *)
-  s_ok : bool                        (* side conditions the code does not compute, accumulated: analysis_ok of every
+  s_ok : bool;                       (* side conditions the code does not compute, accumulated: analysis_ok of every
                                         conflict analysis, the second component of unsolvable *)
+  s_born : list N                    (* ghost: clauses that started being watched with both watched literals false,
+                                        since the trail was last cleared (the exempt set of propagate_complete) *)
 }.
 
 Definition with_ps (st : sstate) (ps : pstate) (lg : list levent) : sstate :=
-  mkS (s_enc st) (s_db st) ps (s_asserts st) (s_units st) (s_act st) (s_start st) lg (s_order st) (s_ok st).
+  mkS (s_enc st) (s_db st) ps (s_asserts st) (s_units st) (s_act st) (s_start st) lg (s_order st) (s_ok st) (s_born st).
 
 Definition set_ok (st : sstate) (b : bool) : sstate :=
-  mkS (s_enc st) (s_db st) (s_ps st) (s_asserts st) (s_units st) (s_act st) (s_start st) (s_log st) (s_order st) b.
+  mkS (s_enc st) (s_db st) (s_ps st) (s_asserts st) (s_units st) (s_act st) (s_start st) (s_log st) (s_order st) b (s_born st).
+
+Definition with_born (st : sstate) (b : list N) : sstate :=
+  mkS (s_enc st) (s_db st) (s_ps st) (s_asserts st) (s_units st) (s_act st) (s_start st) (s_log st) (s_order st) (s_ok st) b.
 
 Definition tr_lits (st : sstate) : list lit := tl_lits (ps_trail (s_ps st)).
 Definition top_lv (st : sstate) : N := match ps_trail (s_ps st) with e :: _ => t_level e | [] => 0 end.
@@ -80,7 +85,7 @@ Fixpoint s_pop_above (fuel : nat) (lv : N) (st : sstate) : sstate :=
 
 Definition s_undo_until (st : sstate) (lv : N) : sstate :=
   let st1 := with_ps st (s_ps st) (LUndoUntil lv :: s_log st) in
-  if N.eqb lv 0 then with_ps st1 (clear_trail (s_ps st1)) (s_log st1)
+  if N.eqb lv 0 then with_born (with_ps st1 (clear_trail (s_ps st1)) (s_log st1)) []
   else s_pop_above (length (ps_trail (s_ps st1))) lv st1.
 
 (* ---------- clauses ---------- *)
@@ -92,13 +97,17 @@ Definition add_clause (acc : sstate * list N) (c : cl) : sstate * list N :=
   let w := create (tr_lits st) c in
   let ps1 := match w_watch w with Some x => start_watching (s_ps st) id x | None => s_ps st end in
   let asserts1 := match w_assert w with Some v => s_asserts st ++ [((v, false), id)] | None => s_asserts st end in
-  (mkS (s_enc st) (s_db st ++ [c]) ps1 asserts1 (s_units st) (s_act st) (s_start st) (s_log st) (s_order st) (s_ok st),
+  let born1 := match w_watch w with
+               | Some x => if plit_false (s_ps st) (fst x) && plit_false (s_ps st) (snd x) then id :: s_born st else s_born st
+               | None => s_born st
+               end in
+  (mkS (s_enc st) (s_db st ++ [c]) ps1 asserts1 (s_units st) (s_act st) (s_start st) (s_log st) (s_order st) (s_ok st) born1,
    if w_conflict w then confl ++ [id] else confl).
 
 (* the encoder state moved from [s_enc st] to [enc1]: its new clauses enter the database *)
 Definition absorb (st : sstate) (enc1 : estate) : sstate * list N :=
   let new := skipn (length (e_db (s_enc st))) (e_db enc1) in
-  let st1 := mkS enc1 (s_db st) (s_ps st) (s_asserts st) (s_units st) (s_act st) (s_start st) (s_log st) (s_order st) (s_ok st) in
+  let st1 := mkS enc1 (s_db st) (s_ps st) (s_asserts st) (s_units st) (s_act st) (s_start st) (s_log st) (s_order st) (s_ok st) (s_born st) in
   fold_left add_clause new (st1, []).
 
 (* the synchronous runtime: futures complete first-in first-out *)
@@ -142,7 +151,7 @@ Definition encode (fuel : nat) (st : sstate) (sos : list (option N)) : option (s
     match enc_ordered (falses_of (tr_lits st)) enc1 w order with
     | Some (enc2, order') =>
       let '(st1, confl) := absorb st enc2 in
-      Some (mkS (s_enc st1) (s_db st1) (s_ps st1) (s_asserts st1) (s_units st1) (s_act st1) (s_start st1) (s_log st1) (Some order') (s_ok st1), confl)
+      Some (mkS (s_enc st1) (s_db st1) (s_ps st1) (s_asserts st1) (s_units st1) (s_act st1) (s_start st1) (s_log st1) (Some order') (s_ok st1) (s_born st1), confl)
     | None => None
     end
   end.
@@ -193,7 +202,12 @@ Definition learn (st : sstate) (conf : N) : option (sstate * N) :=
     let units2 := match lits with [l] => s_units st1 ++ [(l, id)] | _ => s_units st1 end in
     let st2 := mkS (s_enc st1) (s_db st1 ++ [c]) ps2 (s_asserts st1) units2
                    (a_conflict (s_act st1) (sol_names lits)) (s_start st1) (s_log st1) (s_order st1)
-                   (s_ok st1 && analysis_ok (s_db st) (ps_trail (s_ps st)) conf r) in
+                   (s_ok st1 && analysis_ok (s_db st) (ps_trail (s_ps st)) conf r)
+                   (match lits, rev lits with
+                    | first :: _ :: _, last :: _ =>
+                        if plit_false (s_ps st1) first && plit_false (s_ps st1) last then id :: s_born st1 else s_born st1
+                    | _, _ => s_born st1
+                    end) in
     let target := target_level (r_btl r) (s_start st) in
     let st3 := s_undo_until st2 target in
     match rev lits with
@@ -321,7 +335,7 @@ Fixpoint run_loop (fuel efuel : nat) (st : sstate) (so : option N) (start level 
 
 Definition run_sat (fuel efuel : nat) (st : sstate) (so : option N) : run_res :=
   let start := top_lv st in
-  let st0 := mkS (s_enc st) (s_db st) (s_ps st) (s_asserts st) (s_units st) (s_act st) start (s_log st) (s_order st) (s_ok st) in
+  let st0 := mkS (s_enc st) (s_db st) (s_ps st) (s_asserts st) (s_units st) (s_act st) start (s_log st) (s_order st) (s_ok st) (s_born st) in
   run_loop fuel efuel st0 so start start.
 
 (* the soft requirements, one after the other *)
@@ -332,7 +346,7 @@ Fixpoint soft_loop (fuel efuel : nat) (st : sstate) (softs : list N) : run_res :
     match pvalue (s_ps st) (VSol s) with
     | Some _ => soft_loop fuel efuel st t
     | None =>
-      let st0 := mkS (s_enc st) (s_db st) (s_ps st) (s_asserts st) (s_units st) (s_act st) (s_start st) (LSoft :: s_log st) (s_order st) (s_ok st) in
+      let st0 := mkS (s_enc st) (s_db st) (s_ps st) (s_asserts st) (s_units st) (s_act st) (s_start st) (LSoft :: s_log st) (s_order st) (s_ok st) (s_born st) in
       let '(st1, _) := absorb st0 (register U (s_enc st0) s) in
       match run_sat fuel efuel st1 (Some s) with
       | ROk st2 _ => soft_loop fuel efuel st2 t
@@ -345,7 +359,7 @@ Definition chosen (st : sstate) : list N :=
   flat_map (fun e => match t_lit e with (VSol s, true) => [s] | _ => [] end) (rev (ps_trail (s_ps st))).
 
 Definition solve (fuel efuel : nat) (a0 : A) (order : option (list task)) : outcome * sstate :=
-  let st0 := mkS (estate0 cache0) [mkCl KRoot [(VRoot, true)]] ps0 [] [] a0 0 [] order true in
+  let st0 := mkS (estate0 cache0) [mkCl KRoot [(VRoot, true)]] ps0 [] [] a0 0 [] order true [] in
   match run_sat fuel efuel st0 None with
   | ROk st1 true =>
     match soft_loop fuel efuel st1 (pr_soft P) with
@@ -363,7 +377,7 @@ Definition solve (fuel efuel : nat) (a0 : A) (order : option (list task)) : outc
 End Solver.
 
 Arguments mkS {A}. Arguments s_enc {A}. Arguments s_db {A}. Arguments s_ps {A}. Arguments s_asserts {A}.
-Arguments s_units {A}. Arguments s_act {A}. Arguments s_start {A}. Arguments s_log {A}. Arguments s_order {A}. Arguments s_ok {A}. Arguments set_ok {A}.
+Arguments s_units {A}. Arguments s_act {A}. Arguments s_start {A}. Arguments s_log {A}. Arguments s_order {A}. Arguments s_ok {A}. Arguments set_ok {A}. Arguments s_born {A}. Arguments with_born {A}.
 Arguments with_ps {A}. Arguments tr_lits {A}. Arguments top_lv {A}. Arguments s_assign {A}. Arguments s_undo_last {A}.
 Arguments s_pop_above {A}. Arguments s_undo_until {A}. Arguments add_clause {A}. Arguments absorb {A}.
 Arguments encode U P {A}. Arguments clause_falsified {A}. Arguments s_propagate {A}. Arguments s_pops {A}.
